@@ -56,6 +56,14 @@ def targets_for(rng, hist, info, cmd, rows):
             pool += [rng.sample(ids, 3)]
         for l in labels:
             pool += [[l + "@head"], [l + "@heads"]]
+        # destinations named by a partial id (unique prefixes resolve, others are refused), alone
+        # and next to a full id
+        longs = [i for i in ids if len(i) > 4]
+        for i in longs[:4]:
+            pool.append([i[:-1]])
+            pool.append([i[:4]])
+        if longs and len(ids) >= 2:
+            pool.append([longs[0][:-1], rng.choice([i for i in ids if i != longs[0]])])
     return pool
 
 
@@ -245,6 +253,22 @@ def run_focus(ctx, focus_name, rng_name="main", scale=1.0):
     runner.flush(on_result)
     judge(ctx, focus, collected, sds)
     runner.close()
+    if focus_name == "C03":
+        # the same commands the way env.py runs them: a fresh MigrationContext per command, heads
+        # read from the table, version-table options (harness/rev_ctx.py)
+        from . import rev_ctx
+
+        cases = []
+        for k in range(int((72 if ctx.thorough else 18) * scale)):
+            hist = gen_graph.gen_history(rng, rng.randint(2, 8), labels=rng.random() < 0.4, deps=rng.random() < 0.6)
+            sd, info = rev_impl.load(hist)
+            if sd is None:
+                continue
+            sds[json.dumps(hist, sort_keys=True)] = sd
+            rev_ctx.drive(ctx, cases, rng, hist, 8, focus.weights, rev_ctx.OPTION_SETS[k % len(rev_ctx.OPTION_SETS)])
+        if cases:
+            ans = ctx.drv.ask([{"op": "rev.cmd", **{k: v for k, v in c.items() if k != "ctxopts"}} for c, _ in cases])
+            judge(ctx, focus, [(c, impl, model) for (c, impl), model in zip(cases, ans)], sds)
     ctx.exhaustive = False
 
 
@@ -283,6 +307,15 @@ def judge(ctx, focus, collected, sds):
             it = parse_impl_upgrade_targets(sd, c["rows"], c["target"])
             spec_ops.append({"op": "rev.spec.targets", **h, "ident": c["target"]})
             spec_meta.append(("targets", inp, impl, it))
+            # `+N` / `label@+N` without a revision: the target is exactly N links above the single
+            # applied tip it must start counting from (Spec.Rev.relUpOk)
+            mm = REL_RE.match(c["target"]) if isinstance(c["target"], str) else None
+            if mm and not mm.group(2) and int(mm.group(3)) > 0 and it and len(it) == 1 and it[0] is not None:
+                op = {"op": "rev.spec.relup", **h, "rows": c["rows"], "n": int(mm.group(3)), "result": it[0]}
+                if mm.group(1):
+                    op["label"] = mm.group(1)
+                spec_ops.append(op)
+                spec_meta.append(("relup", inp, impl, (it[0], int(mm.group(3)))))
         elif focus.prop == "C02":
             pt = parse_impl_downgrade_target(sd, c["rows"], c["target"])
             if pt is not None and ("steps" in impl or impl.get("err") == "rangeNotAncestor"):
@@ -365,6 +398,10 @@ def judge(ctx, focus, collected, sds):
                 if len(a["targets"]) <= 1 and extra["target"] != want:
                     ctx.fail(inp, "target-resolution: downgrade target resolves to %s, documented meaning is %s" % (extra["target"], want), impl=impl, tags=["resolution"])
             k += 1
+        elif kind == "relup":
+            if a.get("holds") is False:
+                ctx.fail(inp, "target-resolution: relative upgrade target %r from rows %s resolves to %s, which is not exactly %d down_revision links above the applied tip it must count from" % (inp["target"], inp["rows"], extra[0], extra[1]), impl=impl, tags=["resolution", "relup"])
+            k += 1
         elif kind == "dsteps":
             if a.get("holds") is not True:
                 ctx.fail(inp, "target-distance: relative downgrade target %r resolves to %s, which is not exactly %d down_revision links below %s" % (inp["target"], extra[2] or "base", extra[1], extra[0]), impl=impl, tags=["resolution", "distance"])
@@ -382,7 +419,10 @@ def judge(ctx, focus, collected, sds):
             n = len(inp["targets"])
             group = ans[k : k + n]
             k += n
-            if all("targets" in g for g in group) and "stepErr" not in impl:
+            named = [t for g in group for t in g.get("targets", [])]
+            if len(named) != len(set(named)):
+                ctx.hist("skipped", "the same destination named twice")
+            elif all("targets" in g for g in group) and "stepErr" not in impl:
                 dests = []
                 for g in group:
                     for t in g["targets"]:
@@ -395,7 +435,7 @@ def judge(ctx, focus, collected, sds):
                 second_meta.append(("stamp-pre2", inp, impl, dests))
                 second.append({"op": "rev.spec.stamp", **h, "rows": inp["rows"], "dests": dests, "rows2": rows2})
                 second_meta.append(("stamp", inp, impl, dests))
-            elif "stepErr" in impl:
+            elif "stepErr" in impl and len(named) == len(set(named)):
                 second.append({"op": "rev.spec.antichain", **h, "rows": inp["rows"]})
                 second_meta.append(("stamp-err", inp, impl, None))
         else:
